@@ -4,6 +4,7 @@ import (
 	"bytes"
 	"fmt"
 	"math/rand"
+	"strings"
 	"sync"
 	"time"
 
@@ -142,15 +143,38 @@ func c19f(clause, trigger, format string, a ...any) *check.Finding {
 	return &check.Finding{Props: []string{"C19"}, Clause: clause, Trigger: trigger, Detail: fmt.Sprintf(format, a...), Engine: "C19 receipts"}
 }
 
-// awaitForwards waits until no forwarding goroutine is left in the SUT.
+// awaitForwards waits until forwarding is over: in one (stop-the-world)
+// goroutine dump no forwarding goroutine exists and every goroutine of the
+// receipt handler is parked waiting for the next receipt - so the queue is
+// empty and whatever was taken from it has been verified and, if valid,
+// forwarded. (Looking at forwarding goroutines alone is not enough: between two
+// receipts of a long queue there are moments without any.) Called once every
+// submission has been answered, so nothing new can arrive.
 func awaitForwards(p *sut.Proc) bool {
-	for round := 0; round < 2500; round++ {
+	for round := 0; round < 3000; round++ {
 		dump, err := p.Goroutines()
 		if err != nil {
 			return false
 		}
 		if sut.CountGoroutines(dump, "ReceiptHandler).ForwardToNCS") == 0 && sut.CountGoroutines(dump, "ReceiptHandler.ForwardToNCS") == 0 {
-			return true
+			idle, busy := 0, 0
+			for _, g := range strings.Split(dump, "\n\n") {
+				if !strings.Contains(g, "ReceiptHandler.HandleReceipts") && !strings.Contains(g, "ReceiptHandler).HandleReceipts") {
+					continue
+				}
+				head := g
+				if i := strings.Index(g, "\n"); i > 0 {
+					head = g[:i]
+				}
+				if strings.Contains(head, "[select") || strings.Contains(head, "[chan receive") {
+					idle++
+				} else {
+					busy++
+				}
+			}
+			if idle > 0 && busy == 0 {
+				return true
+			}
 		}
 		time.Sleep(10 * time.Millisecond)
 	}
